@@ -156,6 +156,7 @@ fn after_read(obj: &dicom_object::DefaultDicomObject, env: &EnvRef) {
     }
     let _ = obj.decode_pixel_data_frame(0);
     let _ = obj.decode_pixel_data_frame(1);
+    let _ = obj.decode_pixel_data_frame(2);
     harvest_strings(obj, env);
 }
 
@@ -746,6 +747,72 @@ fn base_images() -> &'static Vec<(String, Vec<u8>)> {
                 push(&format!("{}-rgb", name), f);
             }
         }
+        // multi-frame encapsulated images whose frames span several fragments, with a basic offset table:
+        // the frame-to-fragment arithmetic of decode_pixel_data_frame only runs for these
+        let px8x2: Vec<u8> = (0..8 * 6 * 2).map(|i| (i * 3) as u8).collect();
+        let resplit = |f: &dicom_object::DefaultDicomObject, name: &str, parts: usize, v: &mut Vec<(String, Vec<u8>)>| {
+            use dicom_core::header::Header;
+            let mut f = f.clone();
+            let frags: Option<Vec<Vec<u8>>> = f.element(Tag(0x7FE0, 0x0010)).ok().and_then(|e| match e.value() {
+                Value::PixelSequence(s) => Some(s.fragments().to_vec()),
+                _ => None,
+            });
+            if let Some(frags) = frags {
+                let mut out = Vec::new();
+                let mut bot = Vec::new();
+                let mut off = 0u32;
+                for fr in &frags {
+                    bot.push(off);
+                    let n = fr.len();
+                    let step = (n / parts).max(2) & !1;
+                    let mut pos = 0;
+                    for k in 0..parts {
+                        let end = if k + 1 == parts { n } else { (pos + step).min(n) };
+                        let mut piece = fr[pos..end].to_vec();
+                        if piece.len() % 2 == 1 {
+                            piece.push(0);
+                        }
+                        off += 8 + piece.len() as u32;
+                        out.push(piece);
+                        pos = end;
+                    }
+                }
+                f.put(DataElement::new(Tag(0x7FE0, 0x0010), VR::OB, Value::PixelSequence(PixelFragmentSequence::new(bot, out))));
+                let mut b = Vec::new();
+                if f.write_all(&mut b).is_ok() {
+                    v.push((name.to_string(), b));
+                }
+            }
+        };
+        {
+            let mut f = image_object(6, 8, 8, 1, 2, "1.2.840.10008.1.2.1", Value::Primitive(PrimitiveValue::U8(px8x2.iter().cloned().collect())), VR::OB);
+            if f.transcode(&dicom_transfer_syntax_registry::entries::JPEG_BASELINE.erased()).is_ok() {
+                resplit(&f, "jpeg-2frames-4fragments", 2, &mut v);
+                resplit(&f, "jpeg-2frames-6fragments", 3, &mut v);
+            }
+            let f = image_object(
+                6,
+                8,
+                8,
+                1,
+                2,
+                "1.2.840.10008.1.2.5",
+                Value::PixelSequence(PixelFragmentSequence::new(vec![], vec![rle_frame_8bit(&px8x2[..48]), rle_frame_8bit(&px8x2[48..])])),
+                VR::OB,
+            );
+            resplit(&f, "rle-2frames-4fragments", 2, &mut v);
+            let f = image_object(
+                6,
+                8,
+                8,
+                1,
+                2,
+                "1.2.840.10008.1.2.1.98",
+                Value::PixelSequence(PixelFragmentSequence::new(vec![], vec![px8x2[..48].to_vec(), px8x2[48..].to_vec()])),
+                VR::OB,
+            );
+            resplit(&f, "encapsulated-uncompressed-2frames-4fragments", 2, &mut v);
+        }
         v
     })
 }
@@ -759,7 +826,7 @@ fn run_pixeldata(w: &mut Tape, env: &EnvRef) -> RunResult {
     // damage biased to the image attributes (group 0028) and the pixel data
     let n = 1 + w.below(3);
     for _ in 0..n {
-        match w.below(4) {
+        match w.below(6) {
             0 => {
                 // an image attribute value: US elements of group 0028 are "28 00 xx xx 'U' 'S' 02 00 vv vv"
                 let mut idx = Vec::new();
@@ -789,6 +856,36 @@ fn run_pixeldata(w: &mut Tape, env: &EnvRef) -> RunResult {
                 let mut tail = file.split_off(start);
                 env.with(|e| corrupt(w, &mut e.obs, &mut tail, None));
                 file.extend_from_slice(&tail);
+            }
+            4 | 5 => {
+                // an entry of the basic offset table (first item of the pixel sequence): stale, swapped, descending
+                if let Some(p) = find(&file, &[0xE0, 0x7F, 0x10, 0x00, b'O', b'B', 0, 0, 0xFF, 0xFF, 0xFF, 0xFF, 0xFE, 0xFF, 0x00, 0xE0]) {
+                    let len_at = p + 16;
+                    if len_at + 4 <= file.len() {
+                        let n = u32::from_le_bytes([file[len_at], file[len_at + 1], file[len_at + 2], file[len_at + 3]]) as usize / 4;
+                        if n > 0 && len_at + 4 + 4 * n <= file.len() {
+                            let k = w.below(n as u32) as usize;
+                            let at = len_at + 4 + 4 * k;
+                            let cur = u32::from_le_bytes([file[at], file[at + 1], file[at + 2], file[at + 3]]);
+                            let v: u32 = match w.below(7) {
+                                0 => 0,
+                                1 => cur.wrapping_add(8),
+                                2 => cur.wrapping_sub(8),
+                                3 => cur / 2,
+                                4 => cur.wrapping_mul(2).wrapping_add(2),
+                                5 => 0xFFFF_FFF0,
+                                _ => file.len() as u32,
+                            };
+                            file[at..at + 4].copy_from_slice(&v.to_le_bytes());
+                            if k == 0 && n > 1 && w.chance(1, 2) {
+                                // first entry beyond the second: a descending table
+                                let nxt = u32::from_le_bytes([file[at + 4], file[at + 5], file[at + 6], file[at + 7]]);
+                                file[at..at + 4].copy_from_slice(&nxt.wrapping_add(16).to_le_bytes());
+                            }
+                            env.with(|e| e.obs.fault("offset-table-entry"));
+                        }
+                    }
+                }
             }
             2 => {
                 // Number of Frames text
